@@ -66,6 +66,11 @@ func dqueueScenario(w *sim.World) {
 	desc := fmt.Sprintf("dqueue consumers=%d buffer=%d", nc, buffer)
 	w.Event("cfg %s", desc)
 	wd := env.NewWorld(w)
+	if w.Choose(sim.KCfg, 2) == 1 {
+		// injected refusals: an environment resource aborts an attempt at a drawn operation (no step in the spec)
+		wd.FaultBudget = 1 + w.Choose(sim.KCfg, 6)
+		w.Probe("env_refusals_enabled")
+	}
 	envsys.NewDQueue(wd, nc, buffer, true)
 	var requests []int          // consumer ids in the order their requests were committed
 	var served int              // requests answered so far
@@ -149,6 +154,11 @@ func lbScenario(w *sim.World) {
 	desc := fmt.Sprintf("loadbalancer servers=%d clients=%d buffer=%d", ns, nc, buffer)
 	w.Event("cfg %s", desc)
 	wd := env.NewWorld(w)
+	if w.Choose(sim.KCfg, 2) == 1 {
+		// injected refusals: an environment resource aborts an attempt at a drawn operation (no step in the spec)
+		wd.FaultBudget = 1 + w.Choose(sim.KCfg, 6)
+		w.Probe("env_refusals_enabled")
+	}
 	l := envsys.NewLoadBalancer(wd, ns, nc, buffer, true)
 	type cl struct {
 		sent, forwarded, answered, received int
@@ -243,6 +253,11 @@ func proxyScenario(w *sim.World) {
 	desc := fmt.Sprintf("proxy servers=%d clients=%d exploreFail=%v perfectFD", ns, nc, explore)
 	w.Event("cfg %s", desc)
 	wd := env.NewWorld(w)
+	if w.Choose(sim.KCfg, 2) == 1 {
+		// injected refusals: an environment resource aborts an attempt at a drawn operation (no step in the spec)
+		wd.FaultBudget = 1 + w.Choose(sim.KCfg, 6)
+		w.Probe("env_refusals_enabled")
+	}
 	p := envsys.NewProxy(wd, ns, nc, explore, true)
 	gone := make([]bool, ns+1)
 	type outstanding struct{ id, body tla.Value }
